@@ -262,3 +262,36 @@ Proof.
       { replace (2 * 2 ^ (x - 150 + B)) with (2 ^ (x + 1 - 150 + B)) by (rewrite <- Z.pow_succ_r by (unfold B; lia); f_equal; lia). apply Z.pow_le_mono_r; unfold B; lia. }
       pose proof (pow2_pos (x - 150 + B) ltac:(unfold B; lia)). nia.
 Qed.
+
+(* ---- comparison and x.min(1.0) on non-negative floats *)
+Lemma flt_fv K x y : nwf K x -> nwf K y -> flt x y = (fv x <? fv y).
+Proof.
+  intros Hx Hy. destruct x as [s| | |[] m e]; destruct y as [t| | |[] n f]; try contradiction.
+  - reflexivity.
+  - destruct Hy as [Hf _]. unfold flt, fcmp. cbn [signed fv]. rewrite Z.mul_0_l.
+    pose proof (pow2_pos (f - Z.min 0 f) ltac:(lia)). pose proof (pow2_pos (f + B) ltac:(unfold B; lia)).
+    destruct (Z.compare_spec 0 (Z.pos n * 2 ^ (f - Z.min 0 f))); nia.
+  - destruct Hx as [He _]. unfold flt, fcmp. cbn [signed fv]. rewrite Z.mul_0_l.
+    pose proof (pow2_pos (e - Z.min e 0) ltac:(lia)). pose proof (pow2_pos (e + B) ltac:(unfold B; lia)).
+    destruct (Z.compare_spec (Z.pos m * 2 ^ (e - Z.min e 0)) 0); nia.
+  - destruct Hx as [He _]. destruct Hy as [Hf _]. unfold flt, fcmp. cbn [signed fv].
+    set (e0 := Z.min e f).
+    assert (E1 : Z.pos m * 2 ^ (e + B) = Z.pos m * 2 ^ (e - e0) * 2 ^ (e0 + B)) by (rewrite <- Z.mul_assoc, <- Z.pow_add_r by (unfold e0, B; lia); f_equal; f_equal; lia).
+    assert (E2 : Z.pos n * 2 ^ (f + B) = Z.pos n * 2 ^ (f - e0) * 2 ^ (e0 + B)) by (rewrite <- Z.mul_assoc, <- Z.pow_add_r by (unfold e0, B; lia); f_equal; f_equal; lia).
+    rewrite E1, E2. pose proof (pow2_pos (e0 + B) ltac:(unfold e0, B; lia)) as HP.
+    set (a := Z.pos m * 2 ^ (e - e0)). set (c := Z.pos n * 2 ^ (f - e0)). set (P := 2 ^ (e0 + B)) in *.
+    destruct (Z.compare_spec a c); symmetry; [apply Z.ltb_ge|apply Z.ltb_lt|apply Z.ltb_ge]; nia.
+Qed.
+Lemma fmin1_fv x : nwf 16 x -> fv (fmin1 x) = Z.min (fv x) (fv (F 1)) /\ nwf 16 (fmin1 x).
+Proof.
+  intros Hx. assert (H1 : nwf 16 (F 1)) by (vm_compute; split; [split; discriminate|reflexivity]).
+  unfold fmin1, fmin. assert (Hn : is_nan x = false) by (destruct x as [| | |[] ? ?]; try contradiction; reflexivity).
+  rewrite Hn. change (is_nan (F 1)) with false. rewrite (flt_fv 16 (F 1) x H1 Hx).
+  destruct (Z.ltb_spec (fv (F 1)) (fv x)); split; try assumption; lia.
+Qed.
+Theorem q_min1_mono max limit x y n f : F max = Ffin false n f -> -151 <= f <= 0 -> Zpos n < 2 ^ 24 -> 0 <= limit ->
+  nwf 16 x -> nwf 16 y -> fv x <= fv y -> Encode.q max limit (fmin1 x) <= Encode.q max limit (fmin1 y).
+Proof.
+  intros EF Hf Hn Hl Hx Hy Hle. destruct (fmin1_fv x Hx) as [Vx Wx]. destruct (fmin1_fv y Hy) as [Vy Wy].
+  apply (q_mono max limit _ _ n f); try assumption. rewrite Vx, Vy. lia.
+Qed.
